@@ -56,7 +56,8 @@ func stakeNewValidator(ctx sdk.Ctx, msg types.MsgStake, k keeper.Keeper) sdk.Res
 		}
 	}
 	// create validator object using the message fields
-	validator := types.NewValidator(sdk.Address(msg.PubKey.Address()), msg.PubKey, msg.Value)
+	// the new validator starts with no stake: StakeValidator below adds msg.Value
+	validator := types.NewValidator(sdk.Address(msg.PubKey.Address()), msg.PubKey, sdk.ZeroInt())
 	// Set Validator Status
 	validator.Status = sdk.Unstaked
 	// check if they can stake
